@@ -382,3 +382,110 @@ Example command_example :
   command_line [32;32;102;111;114;99;101;116;121;112;101;32;32;65;60;105;110;116;62;32;32;35;32;99]%N
   = Ok (Some ([102;111;114;99;101;116;121;112;101]%N, [65;60;105;110;116;62]%N)).
 Proof. vm_compute. reflexivity. Qed.
+
+(* ---------------------------------------------------------------- save_expansion *)
+Lemma number_len_le s : number_len s <= length s.
+Proof.
+  induction s as [|c r IH]; cbn [number_len length]; [lia|].
+  destruct (isalnum c || beq c c_us || beq c c_dot); [lia|].
+  destruct (beq c c_squote); [|lia]. destruct r as [|c2 r2]; [lia|]. destruct (isalnum c2); lia.
+Qed.
+
+Lemma literal_len_le fuel : forall quote s, literal_len fuel quote s <= length s.
+Proof.
+  induction fuel as [|f IH]; intros quote s; cbn [literal_len]; [lia|].
+  destruct s as [|c r]; cbn [length]; [lia|].
+  destruct (beq c quote); [lia|]. destruct (beq c c_bslash).
+  - destruct r as [|c2 r2]; cbn [length]; [lia|]. specialize (IH quote r2). lia.
+  - specialize (IH quote r). lia.
+Qed.
+
+Lemma opt_len_le s : forall n, opt_len s n <= length s.
+Proof.
+  induction s as [|c r IH]; intros n; cbn [opt_len length]; [lia|].
+  destruct n as [|n']; [lia|]. destruct (beq c c_lparen); [specialize (IH (S (S n'))); lia|].
+  destruct (beq c c_rparen); [specialize (IH n'); lia|specialize (IH (S n')); lia].
+Qed.
+
+Lemma flush_ok exp last q paste acc : last <= q -> q <= length exp -> exists r, flush exp last q paste acc = Ok r.
+Proof.
+  intros H1 H2. unfold flush. destruct (Nat.eqb last q); [eauto|]. rewrite substr_ok by lia. cbn [bind]. eauto.
+Qed.
+
+Lemma guarded_at s i : exists c, (if i <? length s then at_ s i else Ok 0%N) = Ok c.
+Proof. destruct (i <? length s) eqn:E; [apply Nat.ltb_lt in E; rewrite at_lt by exact E|]; eauto. Qed.
+
+Section SaveExpansion.
+  Variable names : list (list N).
+  Variable variadic : option nat.
+  Variable exp : list N.
+  Variable rec : list N -> res (list node).
+  (* the parser of a __VA_OPT__ group succeeds on every strictly shorter string *)
+  Hypothesis rec_total : forall sub, length sub < length exp -> exists l, rec sub = Ok l.
+
+  Lemma se_loop_total : forall fuel p last strfy paste acc,
+    last <= p -> p <= length exp -> length exp - p < fuel ->
+    exists l, se_loop rec names variadic exp fuel p last strfy paste acc = Ok l.
+  Proof.
+    induction fuel as [|f IH]; intros p last strfy paste acc Hl Hp Hf; [lia|].
+    cbn [se_loop].
+    destruct (p <? length exp) eqn:Elt; cbn [negb].
+    2:{ destruct (flush_ok exp last p paste acc Hl Hp) as [r Hr]. rewrite Hr. cbn [bind]. eauto. }
+    apply Nat.ltb_lt in Elt. rewrite (at_lt exp p Elt). cbn [bind].
+    set (c := nth p exp 0%N).
+    destruct (is_ident_start c).
+    { (* identifier *)
+      pose proof (scan_ge is_ident_char exp (S p)) as G1.
+      pose proof (scan_le is_ident_char exp (S p) ltac:(lia)) as L1.
+      set (p1 := scan is_ident_char exp (S p)) in *.
+      rewrite (substr_ok exp p (p1 - p)) by lia. cbn [bind].
+      destruct (str_eqb _ s_va_opt).
+      - pose proof (scan_ge isspace exp p1) as G2.
+        pose proof (scan_le isspace exp p1 L1) as L2.
+        set (p2 := scan isspace exp p1) in *.
+        destruct (guarded_at exp p2) as [c2 Hc2]. rewrite Hc2. cbn [bind].
+        destruct ((p2 <? length exp) && beq c2 c_lparen) eqn:Eo.
+        + apply andb_true_iff in Eo. destruct Eo as [Eo _]. apply Nat.ltb_lt in Eo.
+          pose proof (opt_len_le (skipn (S p2) exp) 1) as Lo. rewrite skipn_length in Lo.
+          set (p3 := S p2 + opt_len (skipn (S p2) exp) 1) in *.
+          destruct (flush_ok exp last p paste acc Hl ltac:(lia)) as [r Hr]. rewrite Hr. cbn [bind].
+          rewrite substr_ok by lia. cbn [bind].
+          match goal with |- context [rec ?s] => destruct (rec_total s) as [nl Hn] end.
+          { rewrite firstn_length, skipn_length. lia. }
+          rewrite Hn. cbn [bind]. apply IH; lia.
+        + apply IH; lia.
+      - destruct (if str_eqb _ s_va_args then variadic else find_param names _ 0) as [n|].
+        + destruct (flush_ok exp last p paste acc Hl ltac:(lia)) as [r Hr]. rewrite Hr. cbn [bind]. apply IH; lia.
+        + apply IH; lia. }
+    destruct (isdigit c).
+    { pose proof (number_len_le (skipn (S p) exp)) as Ln. rewrite skipn_length in Ln. apply IH; lia. }
+    destruct (is_quote c).
+    { pose proof (literal_len_le (length exp) c (skipn (S p) exp)) as Ll. rewrite skipn_length in Ll. apply IH; lia. }
+    destruct (beq c c_hash).
+    { destruct (flush_ok exp last p paste acc Hl ltac:(lia)) as [r Hr]. rewrite Hr. cbn [bind].
+      destruct (guarded_at exp (S p)) as [c2 Hc2]. rewrite Hc2. cbn [bind].
+      destruct ((S p <? length exp) && beq c2 c_hash) eqn:Eh.
+      - apply andb_true_iff in Eh. destruct Eh as [Eh _]. apply Nat.ltb_lt in Eh. apply IH; lia.
+      - apply IH; lia. }
+    destruct (isspace c).
+    { destruct (flush_ok exp last p paste acc Hl ltac:(lia)) as [r Hr]. rewrite Hr. cbn [bind]. apply IH; lia. }
+    apply IH; lia.
+  Qed.
+End SaveExpansion.
+
+(* for EVERY replacement list, parameter list and nesting of __VA_OPT__ groups the parser returns a node list:
+   no out-of-range substr (including the wrapping length p - 1 - start), no index beyond the terminator, fuel never runs out *)
+Theorem save_expansion_total : forall dfuel names variadic exp, length exp < dfuel ->
+  exists l, save_expansion dfuel names variadic exp = Ok l.
+Proof.
+  induction dfuel as [|df IH]; intros names variadic exp H; [lia|].
+  cbn [save_expansion]. apply se_loop_total; try lia.
+  intros sub Hs. apply IH. lia.
+Qed.
+
+(* #define F(a, b...) a #b x##a __VA_OPT__(, __VA_ARGS__) "a" 1a *)
+Example save_expansion_example :
+  save_expansion 40 [[97]; [98]]%N (Some 1) [97;32;35;98;32;120;35;35;97;32;95;95;86;65;95;79;80;84;95;95;40;44;32;98;41;32;34;97;34]%N
+  = Ok [ mk_parm 0 false false; mk_parm 1 true false; no_expand (mk_text [120]%N false); mk_parm 0 false true;
+         mk_nested [mk_text [44]%N false; mk_parm 1 false false] false false; mk_text [34;97;34]%N false ].
+Proof. vm_compute. reflexivity. Qed.
